@@ -188,7 +188,7 @@ struct Plan {
 	int stripLen;
 	int randomCases;
 };
-Plan plan() { return g_cfg.tier ? Plan{12, 2, 3, 9, 400} : Plan{9, 2, 2, 8, 128}; }
+Plan plan() { return g_cfg.tier ? Plan{15, 2, 3, 11, 4000} : Plan{9, 2, 2, 8, 128}; }
 
 enum Group { G_ERASE, G_MAPS, G_APPLY, G_STRIPS, G_KEYS, G_RANDOM };
 struct Case { Group g; int a, b; };
